@@ -23,6 +23,7 @@ class Recorder:
         self.ids = []          # ids returned by postEvent, in posting order (shared registry)
         self.draws = []        # (size, rank) of every DrawSet.draw
         self.logs = []         # values returned by math.log in stochasticdynamics
+        self.tranches = []     # synchronous dynamics: (t, loci snapshot, #randoms before, #randoms after, chosen)
         self.dyn = None
 
 
@@ -79,13 +80,13 @@ class ScriptProcess(Process):
                 try:
                     i = self.postEvent(t + a[1], e, self.posted_handler(a[2]), name='p%d' % a[2])
                     rec.ids.append(i)
-                    rec.obs.append(['posted', i, t + a[1]])
+                    rec.obs.append(['posted', i, t + a[1], a[2], e])
                 except ValueError:
                     rec.obs.append(['valueerror'])
             elif k == 'postrep':
                 n0 = self.dynamics()._eventId
                 self.postRepeatingEvent(t + a[1], a[2], e, self.posted_handler(a[3]), name='p%d' % a[3])
-                rec.obs.append(['postedrep', t + a[1], a[2], a[3]])
+                rec.obs.append(['postedrep', t + a[1], a[2], a[3], e])
             elif k == 'postpast':
                 try:
                     self.postEvent(self.currentSimulationTime() - 1.0, e, self.posted_handler(0), name='p0')
@@ -98,9 +99,9 @@ class ScriptProcess(Process):
                 i = rec.ids[a[1] % len(rec.ids)]
                 try:
                     r = self.unpostEvent(i, fatal=a[2])
-                    rec.obs.append(['unpost', i, r])
+                    rec.obs.append(['unpost', i, r, a[2]])
                 except KeyError:
-                    rec.obs.append(['unpost', i, 'KeyError'])
+                    rec.obs.append(['unpost', i, 'KeyError', a[2]])
             elif k == 'query':
                 if not rec.ids:
                     continue
@@ -178,6 +179,19 @@ def run_table(table, dynamics, graph, oracle, rec=None, budget=400):
         if len(rec.obs) > budget:
             raise Budget('run exceeds the harness budget of %d observations' % budget)
     dyn.eventFired = tap
+    if dynamics != 'stochastic':
+        orig_all = dyn.allEventsInTimestep
+
+        def all_events(t):
+            snap = {n: list(l) for n, l in dyn.loci().items()}
+            n0 = len(oracle.values('random'))
+            pend = [ev[0] for ev in dyn._postedEventFinder.values()]
+            d0 = len(rec.draws)
+            evs = orig_all(t)
+            rec.tranches.append({'t': t, 'min_pending': min(pend) if pend else None, 'obs_index': len(rec.obs), 'loci': snap, 'r0': n0, 'r1': len(oracle.values('random')), 'd0': d0, 'd1': len(rec.draws),
+                                 'chosen': [[l.name(), e, name] for (l, e, ef, name) in evs]})
+            return evs
+        dyn.allEventsInTimestep = all_events
     install(oracle)
     install_draw_recorder(rec)
     saved_math = sd.math
